@@ -314,7 +314,15 @@ impl<'a> Iterator for TokenIterator<'a> {
                             break;
                         }
                     }
-                    let v = u32::from_str_radix(&*buf, 16).unwrap();
+                    let v = match u32::from_str_radix(&*buf, 16) {
+                        Ok(v) => v,
+                        Err(_) => {
+                            return Some(Token::Error(format!(
+                                "Invalid unicode escape: \\u{}",
+                                buf
+                            )))
+                        }
+                    };
                     if let Some(c) = ::std::char::from_u32(v) {
                         let mut buf = String::new();
                         buf.push(c);
